@@ -208,10 +208,15 @@ def main(tier, seed):
         q = rng.choice([t for t in pts if not t['grey']] or pts)
         if q['grey']:
             return k, res, info
-        S = ['status 0 scripted', 'x ' + ' '.join(repr(v) for v in q['x'])]
+        # the solver's own status: the final solution is checked for every status except "infeasible" (200-299), where it is checked only
+        # with sol:chk:infeas; "unbounded/limit with a feasible solution" are checked like "solved"
+        st = rng.choice([0, 0, 0, 100, 300, 320, 349, 400, 420, 200, 250, 299])
+        chk_infeas = 200 <= st < 300 and rng.random() < 0.5
+        checked = not (200 <= st < 300) or chk_infeas
+        S = ['status %d scripted' % st, 'x ' + ' '.join(repr(v) for v in q['x'])]
         if q['ov']:
             S.append('objvals ' + ' '.join(repr(v) for v in q['ov']))
-        fopts = [o for o in opts if 'mode' not in o] + ['sol:chk:fail', 'wantsol=1']
+        fopts = [o for o in opts if 'mode' not in o] + ['sol:chk:fail', 'wantsol=1'] + (['sol:chk:infeas'] if chk_infeas else [])
         r3 = mpmon.run_case(exe, wd, 's%df' % k, nl, opts=fopts, acc={'*': 2}, script='\n'.join(S) + '\n', timeout=120)
         death = run.classify_death(r3)
         if death and death[0] not in ('exit:1', 'exit:255'):
@@ -222,10 +227,11 @@ def main(tier, seed):
             try:
                 s = solfile.parse(r3['sol'])
                 info['failrun'] = s['code']
-                if q['violated'] and s['code'] != 150:
-                    res.append(('fail-option:violating-point-ends-with-other-code', 'x=%s violated %s: solve_result %s, message %s' % ([str(t) for t in q['p']], q['tags'], s['code'], s['message'][:200])))
-                if not q['violated'] and s['code'] != 0:
-                    res.append(('fail-option:feasible-point-ends-with-code-%s' % s['code'], 'x=%s: message %s' % ([str(t) for t in q['p']], s['message'][:300])))
+                info['fail_status'] = st
+                if q['violated'] and checked and s['code'] != 150:
+                    res.append(('fail-option:violating-point-ends-with-other-code' + ('' if st == 0 else ':solver-status-%d' % (st // 100 * 100)), 'solver status %d%s, x=%s violated %s: solve_result %s, message %s' % (st, ' with sol:chk:infeas' if chk_infeas else '', [str(t) for t in q['p']], q['tags'], s['code'], s['message'][:200])))
+                if (not q['violated'] or not checked) and s['code'] != st:
+                    res.append(('fail-option:%s-ends-with-code-%s' % ('feasible-point' if not q['violated'] else 'unchecked-infeasible-status', s['code']), 'solver status %d, x=%s: message %s' % (st, [str(t) for t in q['p']], s['message'][:300])))
             except solfile.SolError as ex:
                 res.append(('fail-option:sol-malformed', str(ex)))
         if not res:
@@ -249,6 +255,7 @@ def main(tier, seed):
         if info['failrun'] is not None:
             ctx.bump('fail_option_runs')
             ctx.bump('fail_option_runs_ending_150', 1 if info['failrun'] == 150 else 0)
+            ctx.bump('fail_option_runs_with_solver_status_%d' % (info.get('fail_status', 0) // 100 * 100))
         if info['judged'] >= 10:
             ctx.sample(dict(case=k, mode=info['mode'], tolerance_config=info['tol'], points=info['judged'], violating=info['rep'], operators=info['ops'][:8]), cap=5)
         seen = set()
